@@ -41,8 +41,11 @@ restriction asserted, interpolation on a non-ascending solution grid only observ
 """
 META = {
     "claimed": True,
-    "engine": "PDE.tla + PDESolGrid.tla",
-    "text": ("TLC checks on the specification: A(th)u=f and the differentiated system (steady, 2x2/3x3, integer-affine dependence, "
+    "engine": "PDE.tla + PDESolGrid.tla + PDETimeSeq.tla",
+    "text": ("PDETimeSeq.tla: ONE TimeDependentLinearPDE whose time_steps attribute / method are re-assigned between solves - every "
+             "level of every solve satisfies the recurrence on the grid and with the method of THAT solve (SolveCurrent; deviation StaleDt "
+             "refuted); emitted behaviours replayed on one real object. "
+             "TLC checks on the specification: A(th)u=f and the differentiated system (steady, 2x2/3x3, integer-affine dependence, "
              "solver return shapes array/(array,info)/(array,info1,info2)); every level of the forward/backward Euler state "
              "machine satisfies the documented discrete equation with operator A0+tA1 and source assembled at t_idx / t_idx+1 on "
              "non-uniform rational grids, initial condition assembled once, final index reached, one assembly per step; Observe = "
@@ -135,7 +138,7 @@ META = {
              "shape is recorded, the value compared. Changes of variable whose nodes do not fit 32-bit rationals (sm30, t20sm10) are "
              "replayed on the strength of ObsAffine (checked by TLC for the others). Python lists as grid_sol / grid_obs / time_steps "
              "are not documented (np.ndarray) - recorded as observation only; layouts rotate with the position of the case."),
-    "technique": "TLA+ spec (PDE) model-checked with TLC; TLC-emitted problems and exact rational trajectories replayed into cuqi.pde / PDEModel",
+    "technique": "TLA+ specs (PDE, PDESolGrid, PDETimeSeq) model-checked with TLC; TLC-emitted problems and exact rational trajectories replayed into cuqi.pde / PDEModel",
 }
 
 import contextlib, io, json, warnings
